@@ -33,8 +33,9 @@ import (
 
 const vfC16HistServerName = "dns.vf.test"
 
-// vfSelfSignedCert makes a throw-away certificate for name and *.name.
-func vfSelfSignedCert(name string) (cert *tls.Certificate, err error) {
+// vfSelfSignedCert makes a throw-away certificate for name and *.name, and for
+// the further names given.
+func vfSelfSignedCert(name string, more ...string) (cert *tls.Certificate, err error) {
 	key, err := ecdsa.GenerateKey(elliptic.P256(), rand.Reader)
 	if err != nil {
 		return nil, err
@@ -43,7 +44,7 @@ func vfSelfSignedCert(name string) (cert *tls.Certificate, err error) {
 		SerialNumber: big.NewInt(1), Subject: pkix.Name{Organization: []string{"vf"}},
 		NotBefore: time.Now().Add(-time.Hour), NotAfter: time.Now().Add(48 * time.Hour),
 		KeyUsage: x509.KeyUsageDigitalSignature | x509.KeyUsageCertSign, ExtKeyUsage: []x509.ExtKeyUsage{x509.ExtKeyUsageServerAuth},
-		BasicConstraintsValid: true, IsCA: true, DNSNames: []string{name, "*." + name},
+		BasicConstraintsValid: true, IsCA: true, DNSNames: append([]string{name, "*." + name}, more...),
 	}
 	der, err := x509.CreateCertificate(rand.Reader, tmpl, tmpl, &key.PublicKey, key)
 	if err != nil {
